@@ -2,6 +2,7 @@ package sim
 
 import (
 	"bytes"
+	"errors"
 	"fmt"
 	"io"
 	"runtime"
@@ -26,6 +27,7 @@ type UStep struct {
 	CostUS int64  `json:"cost_us,omitempty"` // run: simulated time charged before the polls execute
 	DUS    int64  `json:"d_us,omitempty"`    // tick: simulated time that passes
 	N      int    `json:"n,omitempty"`       // grant: number of pending writes to let through (default 1)
+	Fail   bool   `json:"fail,omitempty"`    // grant: the first of them fails with a write error instead (fault)
 }
 
 // UCIScenario is one explicit, replayable session of the uci-world.
@@ -110,12 +112,16 @@ func (r *simReader) Read(p []byte) (int, error) {
 
 type simWriter struct {
 	offer chan []byte
-	grant chan struct{}
+	grant chan bool // true: written; false: the injected fault "write error"
 }
+
+var errSimWrite = errors.New("simulated write error (GUI end of the pipe is broken)")
 
 func (w *simWriter) Write(p []byte) (int, error) {
 	w.offer <- append([]byte(nil), p...)
-	<-w.grant
+	if ok := <-w.grant; !ok {
+		return 0, errSimWrite
+	}
 	return len(p), nil
 }
 
@@ -396,7 +402,7 @@ func (w *uciWorld) settle() {
 		if w.autoGrant && w.hasPend {
 			w.ev("OUT", string(w.pending), 0)
 			w.hasPend, w.pending = false, nil
-			w.wr.grant <- struct{}{}
+			w.wr.grant <- true
 			progressed = true
 		}
 		if !w.parked {
@@ -595,9 +601,16 @@ func (w *uciWorld) apply(st UStep) bool {
 			if !w.hasPend {
 				break
 			}
-			w.ev("OUT", string(w.pending), 0)
-			w.hasPend, w.pending = false, nil
-			w.wr.grant <- struct{}{}
+			if st.Fail && i == 0 {
+				// injected fault: this write fails, the bytes never reach the GUI
+				w.ev("WRITE-ERROR", string(w.pending), 0)
+				w.hasPend, w.pending = false, nil
+				w.wr.grant <- false
+			} else {
+				w.ev("OUT", string(w.pending), 0)
+				w.hasPend, w.pending = false, nil
+				w.wr.grant <- true
+			}
 			any = true
 			w.settle()
 		}
@@ -783,7 +796,7 @@ func newUCIWorld(sc *UCIScenario) *uciWorld {
 	out := &UCIOutcome{Stats: map[string]int64{}}
 	w := &uciWorld{sc: sc, out: out, t0: time.Now(), errW: &bytes.Buffer{}, autoGrant: sc.AutoGrant}
 	w.rd = &simReader{ch: make(chan []byte)}
-	w.wr = &simWriter{offer: make(chan []byte), grant: make(chan struct{})}
+	w.wr = &simWriter{offer: make(chan []byte), grant: make(chan bool)}
 	w.co = &coop{toSched: make(chan struct{}), resume: make(chan struct{}), resumeN: make(chan int)}
 	w.done = make(chan struct{})
 	ws := &wrapSearch{w: w}
